@@ -26,7 +26,7 @@ RULE = ("messages over the JSON-native domain (boundary integers/floats, control
         "binary bytes == UTF-8 of the text variant. non-trivial = message with an escape-requiring string, a boundary number or "
         "nesting >=3; distinct by hash of the message")
 ASSUMPTIONS = ["value domain bounded by orjson's own limits (64-bit integers, nesting < 254, valid Unicode)"]
-BATCH = 100
+BATCH = 500
 
 
 class Custom(object):
@@ -57,7 +57,7 @@ DEFAULTS = {"default": json_default, "a": default_a, "b": default_b}
 
 
 def plan(tier, seed):
-    n = 6000 if tier == "quick" else 200000
+    n = 100000 if tier == "quick" else 1000000
     return [{"seed": seed, "lo": i, "hi": min(n, i + BATCH), "tier": tier} for i in range(0, n, BATCH)]
 
 
